@@ -98,6 +98,12 @@ func (c *c14Case) build() (tpl string, want map[string]string, wantClass []strin
 	case "obj3":
 		bound = append(bound, `:class="{on: sx, off: nilv, gone: missing}"`)
 		wantClass = append(wantClass, "on")
+	case "num": // a bound class that is not a string
+		bound = append(bound, `:class="cnt"`)
+		wantClass = append(wantClass, "3")
+	case "obj5": // utility-class names contain colons
+		bound = append(bound, `:class="{'md:flex': t, 'a:b:c': one, 'hover:x': f}"`)
+		wantClass = append(wantClass, "md:flex", "a:b:c")
 	case "obj4": // JSON-style double-quoted keys (the attribute is written with single quotes)
 		bound = append(bound, `:class='{"dq": t, "off": f, "k-2": one}'`)
 		wantClass = append(wantClass, "dq", "k-2")
@@ -534,7 +540,7 @@ func init() {
 	core.Register(&core.Check{
 		ID:    "C14",
 		Level: "exploration",
-		Rule: "one element carrying every combination of: static / interpolated title x title bound to 17 values of every truthiness and with string forms that have several spellings (exponent notation, extreme integers) (and v-bind:) x static class x 5 bound class forms (string, objects with bare/single-quoted/double-quoted/hyphenated keys and truthy/falsy/nil/undefined values) x static style x 3 bound style forms (camelCase object, custom property object, string) x v-show {none,true,truthy string,false,0} x directive attributes x 4 bracketed attributes (incl. a mustache value) x both source orders; " +
+		Rule: "one element carrying every combination of: static / interpolated title x title bound to 17 values of every truthiness and with string forms that have several spellings (exponent notation, extreme integers) (and v-bind:) x static class x 7 bound class forms (string, number, objects with bare/single-quoted/double-quoted/hyphenated/colon-bearing keys and truthy/falsy/nil/undefined values) x static style x 3 bound style forms (camelCase object, custom property object, string) x v-show {none,true,truthy string,false,0} x directive attributes x 4 bracketed attributes (incl. a mustache value) x both source orders; " +
 			"plus static style values containing semicolons, colons and quotes (data URLs, quoted strings) x bound style x v-show; plus a reuse part: 13 element forms (v-show with/without static and bound style, bound/interpolated title, :class object/string, :style over static style, v-if / v-else + v-show, v-html / v-text + v-show, boolean attribute) evaluated for every sequence of <=3 values out of 3 in 7 contexts where one source node is evaluated repeatedly (v-for on a parent, <template v-for>, scoped slot inside a component loop, slot used twice per include, component in a loop, component included repeatedly, successive renders on one engine through Load/Render and Vue.Render), oracle: every instance equals the element rendered alone on a fresh engine; " +
 			"oracle: reference attribute model (values, class token list, style property map, static order, no directive/internal attribute in the output, bracketed literal). non-trivial = all with defined semantics",
 		Bounds:      map[string]string{"quick": "full product (528k elements)", "thorough": "same"},
@@ -564,7 +570,7 @@ func init() {
 			for _, ts := range []string{"none", "static", "interp"} {
 				for _, tb := range tbs {
 					for _, cs := range []bool{false, true} {
-						for _, cb := range []string{"none", "str", "obj1", "obj2", "obj3", "obj4"} {
+						for _, cb := range []string{"none", "str", "obj1", "obj2", "obj3", "obj4", "obj5", "num"} {
 							for _, ss := range []bool{false, true} {
 								for _, sb := range []string{"none", "obj1", "obj2", "str"} {
 									for _, sh := range []string{"none", "t", "sx", "f", "zero"} {
